@@ -98,7 +98,29 @@ impl Import {
         let path = Path::new(src);
         let attempted_path = Path::new(str_part);
         let path = path.parent().context("no parent")?.join(attempted_path);
-        Ok(path)
+
+        // one file, one spelling: `./a`, `b/../a` and `a` must name the same module,
+        // because the resolved path identifies the module everywhere else.
+        let mut normalized = PathBuf::new();
+        for component in path.components() {
+            match component {
+                std::path::Component::CurDir => (),
+                std::path::Component::ParentDir => {
+                    let can_pop = matches!(
+                        normalized.components().next_back(),
+                        Some(std::path::Component::Normal(_))
+                    );
+                    if can_pop {
+                        normalized.pop();
+                    } else {
+                        normalized.push("..");
+                    }
+                }
+                other => normalized.push(other.as_os_str()),
+            }
+        }
+
+        Ok(normalized)
     }
 }
 
